@@ -59,7 +59,7 @@ def rule_r2(chk, db):
     b = db.body("s3s_fs::utils::copy_bytes")
     if b is None:
         raise AnchorMissing("copy_bytes not found")
-    n = streamerr.check(chk, "R2", db, b, "copying the request body")
+    n = streamerr.check(chk, "R2", db, b, "copying the request body", end_only_at_eof=True)
     chk.floor("R2", n, 1, "source-stream reads in copy_bytes")
     # write_all / flush errors propagate
     for x in db.nested(b):
@@ -314,6 +314,13 @@ def run(chk, db, tier):
     chk.guard("R2", rule_r2, db)
     chk.guard("R3", rule_r3, db, conf)
     chk.guard("R4", rule_r4, db, conf)
+    # prerequisite for "a rejected upload leaves the previous content": the body the backend copies ends only because its source ended - an
+    # adapter that reports the end early would turn a corrupted or truncated tail into a successful, committed upload (decided for C08)
+    from . import c08
+    from ..report import Sub
+    sub = Sub(chk, "C08")
+    sub.rule("R6", "end-of-stream provenance: body adapters return Ready(None) only because their source ended, never from a size hint")
+    sub.guard("R6", c08.rule_r6, db)
 
 
 META = {
